@@ -1,6 +1,7 @@
 // C17 -- tensorisation: padding_mask and pad_ids contain each item's values followed only by padding, true lengths
 use vstd::prelude::*;
 verus! {
+//@include specs/std_extra.rs
 // ---------------------------------------------------------------- trusted prelude
 /// ndarray::Array2 / Array1: external; ghost view = (rows, cols, row-major data).  `from_shape_vec` succeeds exactly
 /// when the vector has rows*cols elements (ndarray's documented contract) and keeps the data in row-major order.
